@@ -240,6 +240,34 @@ def run_check(check_name, tier, seed, src, jobs, replay=None, limit=None, quiet=
                     print(f"\r{pid} {done}/{n_cases}", end="", file=sys.stderr)
 
     assert all(r is not None for r in results)
+    # order-independence pass: a spread of the cases is executed once more, in REVERSE order, inside one fresh worker
+    # process. The oracle of every case is unchanged, so any failure here that the main pass did not show is state
+    # carried from one call to the next (module-level caches, mutated defaults, aliasing).
+    extra = []
+    if n_cases >= 4 and jobs > 1 and not getattr(mod, "NO_ORDER_PASS", False):
+        ok_idx = [i for i, r in enumerate(results) if r["status"] == "ok"]
+        step = max(1, len(ok_idx) // 96)
+        pick, budget = [], 60.0  # seconds of main-pass time; expensive cases are skipped, the pass stays cheap
+        for i in ok_idx[::step]:
+            if results[i]["t"] <= 6.0 and budget - results[i]["t"] >= 0 and len(pick) < 48:
+                pick.append(i)
+                budget -= results[i]["t"]
+        pick = pick[::-1]
+        import multiprocessing as mp
+
+        ctx = mp.get_context("spawn")
+        with ctx.Pool(1, initializer=_worker_init, initargs=(src, check_name)) as pool:
+            rs = pool.apply(_worker_run, (([(i, cases[i]) for i in pick], seed),))
+        for r in rs:
+            if r["violations"]:
+                for x in r["violations"]:
+                    x["fp"] = x["fp"] + "/order-dependent"
+                    x["msg"] = "only when executed after other cases in one process (reverse order pass): " + x["msg"]
+                extra.append((r["idx"], r))
+        mod._order_pass = {"cases": len(pick), "violations": len(extra)}
+    for i, r in extra:
+        results[i]["violations"] = results[i]["violations"] + r["violations"]
+        results[i]["status"] = "violation"
     return finish(mod, tier, seed, src, cases, results, t0, exhaustive=not limit)
 
 
@@ -312,6 +340,7 @@ def finish(mod, tier, seed, src, cases, results, t0, exhaustive=True):
         "distinct_outcomes": len(outcomes),
         "outcome_histogram": dict(sorted(outcomes.items(), key=lambda kv: -kv[1])[:12]),
         "bounds": mod.bounds(tier),
+        "order_independence_pass": getattr(mod, "_order_pass", None),
         "executed_cases_by_number_of_deviations": by_dev,
         "known_findings_matched": {fp: n for fp, (_, n) in known_hits.items()},
         "fixed_findings_on_record": [f"{f['commit']} {f['what']}" for f in fixed if f["property"] == pid],
